@@ -445,7 +445,7 @@ pub fn run(ctx: &Ctx, rep: &mut Report) {
     rep.prop(
         "mapping",
         "proptest: cut lists of 0..=32 cuts with arbitrary super-resolution bytes / waveform / channel codes, each checked over every sequence 1..=200; non-trivial = both resolutions present",
-        ctx.tier.pick(40_000, 6_000_000),
+        ctx.tier.pick(400_000, 6_000_000),
         || cuts_strategy().prop_map(|cuts| MapCase { cuts }),
         |c| {
             let half = c.cuts.iter().any(|x| x.0 & 1 == 1);
@@ -461,7 +461,7 @@ pub fn run(ctx: &Ctx, rep: &mut Report) {
     rep.prop(
         "estimate",
         "proptest: (cut list, previous chunk sequence incl. 0 / >55 / non-numeric / missing, upload time or none, history of 0..=50 add_timing samples over >= 3 keys with durations 0..=60 s and attempts 1..=5, stats passed or not); non-trivial = history holds > 10 samples for the queried key, or the previous sequence is 54/55",
-        ctx.tier.pick(400_000, 60_000_000),
+        ctx.tier.pick(4_000_000, 60_000_000),
         est_strategy,
         |c| {
             let same = c.history.iter().filter(|h| h.same_key).count();
